@@ -449,7 +449,15 @@ func main() {
 							if !in.full && !(coreCred(c) && fi == 0) {
 								continue
 							}
+							ipUser := strings.Contains(c.name, ":uip")
 							if in.full && fi == 2 && !coreCred(c) {
+								continue
+							}
+							if in.full && fi == 1 && !coreCred(c) && !ipUser && w.mode == "named" {
+								continue
+							}
+							if in.full && w.mode == "named" && strings.HasPrefix(c.name, "bearerup:u") && !ipUser &&
+								c.user != "uall" && c.user != "unone" && c.user != "uapi" && c.user != "upba" && c.pass != "nope" {
 								continue
 							}
 						}
@@ -474,7 +482,7 @@ func main() {
 	r.Rule = "all (auth world: named users / default anonymous users / JWT with and without query tokens, x trusted proxy on|off) x server " +
 		"x registered route (from the gin router) and unregistered/slash-twin paths x 8 method variants x credential placement x user or token " +
 		"permission set x client address header; quick tier: the full credential x address product only on the registered method of each route, " +
-		"a 6-credential core from the direct address on the other methods, the x-real-ip address only with the core credentials; distinct = (server, route, method variant, admitted?, status)"
+		"a 6-credential core from the direct address on the other methods; in the named-user worlds the forwarded-address variants only with the core and the IP-restricted users and the 'Bearer user:pass' placement only for 6 of the 11 users; distinct = (server, route, method variant, admitted?, status)"
 
 	client := httplib.NewClient(workers)
 	defer client.Close()
@@ -592,12 +600,7 @@ func main() {
 		for key := range s.reg {
 			nRoutes++
 			method, tmpl, _ := strings.Cut(key, " ")
-			tot := 0
-			for _, w := range worlds {
-				_ = w
-			}
-			tot = served[servedKey{s.kind, tmpl, method}]
-			if tot == 0 {
+			if served[servedKey{s.kind, tmpl, method}] == 0 {
 				neverServed = append(neverServed, s.kind+" "+key)
 			}
 		}
@@ -622,6 +625,7 @@ func main() {
 		cleanup()
 		vcommon.Harness("vacuous run: admitted=%d stateCalls=%d neverServed=%d/%d %v", len(phase2), stateCalls, len(neverServed), nRoutes, neverServed)
 	}
+	flushViolations(r)
 	r.Exhaustive = true
 	r.Assumptions = []string{
 		"\"admitted\" is decided by a reference model of authInternalUsers / JWT permission claims (IP list, action, playback path exact|regexp|any, user+password or token) written from the documentation; external HTTP authentication (authMethod http) is not enumerated",
@@ -697,16 +701,22 @@ func describe(k kase, id int) map[string]any {
 func judge(r *vcommon.Run, k kase, id int, resp httplib.Resp) {
 	in := k.in
 	st := resp.Status
-	r.Distinct(fmt.Sprintf("%s|%s|%s|adm=%v|%d", in.srv.kind, in.tmpl, in.mv, k.admitted, st))
-	r.Distinct(fmt.Sprintf("cred|%s|%s|%s|%s|trusted=%v|adm=%v|%d", k.w.mode, in.srv.kind, k.c.kind, k.f.name, k.w.trusted, k.admitted, st))
+	// the status of an admitted request is not part of the class (pprof profile/trace answer 200 or 500
+	// depending on whether another profile is running)
+	cst := st
+	if k.admitted && !in.preflight {
+		cst = 0
+	}
+	r.Distinct(fmt.Sprintf("%s|%s|%s|adm=%v|%d", in.srv.kind, in.tmpl, in.mv, k.admitted, cst))
+	r.Distinct(fmt.Sprintf("cred|%s|%s|%s|%s|trusted=%v|adm=%v|%d", k.w.mode, in.srv.kind, k.c.kind, k.f.name, k.w.trusted, k.admitted, cst))
 
 	viol := func(kind, what string) {
 		rep := describe(k, id)
 		rep["status"] = st
-		rep["response_body"] = vcommon.Short(string(resp.Body), 300)
+		rep["response_body"] = printable(resp.Body, 300)
 		key := fmt.Sprintf("%s|%s %s|%s", in.srv.kind, in.mv, in.tmpl, kind)
-		r.Violation(key, fmt.Sprintf("%s: %s %s%s [cred %s, addr %s, world %s] -> %d %s", what, in.method, "", rep["url"], k.c.name, k.f.name, k.w.name,
-			st, vcommon.Short(string(resp.Body), 120)), rep)
+		bufViolation(key, id, fmt.Sprintf("%s: %s %s [cred %s, addr %s, world %s] -> %d %s", what, in.method, vcommon.Short(fmt.Sprint(rep["url"]), 100),
+			k.c.name, k.f.name, k.w.name, st, printable(resp.Body, 120)), rep)
 	}
 
 	if in.preflight {
@@ -761,6 +771,63 @@ func judge(r *vcommon.Run, k kase, id int, resp httplib.Resp) {
 		}
 	}
 	viol(fmt.Sprintf("status-%d", st), "request of a client that is not admitted was not answered 401")
+}
+
+// violations are buffered so that the reported example of a class is the one with the smallest case number
+// (requests run concurrently; the verdict and the class keys do not depend on the schedule)
+type bufViol struct {
+	id    int
+	what  string
+	rep   map[string]any
+	count int
+}
+
+var (
+	bufMu    sync.Mutex
+	bufViols = map[string]*bufViol{}
+)
+
+func bufViolation(key string, id int, what string, rep map[string]any) {
+	bufMu.Lock()
+	defer bufMu.Unlock()
+	b := bufViols[key]
+	if b == nil {
+		bufViols[key] = &bufViol{id: id, what: what, rep: rep, count: 1}
+		return
+	}
+	b.count++
+	if id < b.id {
+		b.id, b.what, b.rep = id, what, rep
+	}
+}
+
+func flushViolations(r *vcommon.Run) {
+	keys := make([]string, 0, len(bufViols))
+	for k := range bufViols {
+		keys = append(keys, k)
+	}
+	sort.Strings(keys)
+	for _, k := range keys {
+		b := bufViols[k]
+		for i := 0; i < b.count; i++ {
+			r.Violation(k, b.what, b.rep)
+		}
+	}
+}
+
+// printable renders a body for messages (binary media bytes become dots).
+func printable(b []byte, n int) string {
+	if len(b) > n {
+		b = b[:n]
+	}
+	out := make([]byte, len(b))
+	for i, c := range b {
+		if c < 0x20 || c > 0x7e {
+			c = '.'
+		}
+		out[i] = c
+	}
+	return string(out)
 }
 
 func envelopeOrPlain404(b []byte) bool {
